@@ -1312,10 +1312,13 @@ class ProcessPoolExecutor(Executor):
             self._pending_work_items[self._queue_count] = w
             self._work_ids.put(self._queue_count)
             self._queue_count += 1
-            # Wake up queue management thread
-            self._executor_manager_thread_wakeup.wakeup()
 
             self._ensure_executor_running()
+            # Wake up queue management thread. This is done after the workers
+            # have been (re-)spawned so that the manager thread, which only
+            # watches the sentinels of the workers it knew when it last went
+            # to sleep, also monitors the new ones.
+            self._executor_manager_thread_wakeup.wakeup()
             return f
 
     submit.__doc__ = Executor.submit.__doc__
